@@ -65,29 +65,51 @@ Definition load_cond_strict (header_ok : bool) (s : cstream) (doms : list Z) : b
 
 (* ---------- sensors ---------- *)
 (* a line: is it empty (no character at all), its number of white-space separated tokens, does its first token contain
-   exactly one '.', the identity of its first token *)
-Record sline := { s_empty : bool; s_ntok : nat; s_dot : bool; s_name : Z }.
-Inductive sres := SOk (nlin nsensors ncol : nat) | SErr | SUnmodelled.
+   exactly one '.', the identity of its first token, its position in the file *)
+Record sline := { s_empty : bool; s_ntok : nat; s_dot : bool; s_name : Z; s_idx : Z }.
+(* accepted: number of rows, number of sensors, number of value columns, and for each row the line it was read from
+   and the sensor it belongs to *)
+Inductive sres := SOk (nlin nsensors ncol : nat) (rows : list (Z * nat)) | SErr | SUnmodelled.
 
-Fixpoint distinct (l : list Z) (seen : list Z) : nat :=
+Fixpoint index_of (x : Z) (l : list Z) (k : nat) : nat :=
+  match l with [] => k | y :: t => if Z.eqb x y then k else index_of x t (S k) end.
+Fixpoint distinct_names (l : list Z) (seen : list Z) : list Z :=
   match l with
-  | [] => O
-  | x :: t => if existsb (Z.eqb x) seen then distinct t seen else S (distinct t (x :: seen))
+  | [] => seen
+  | x :: t => if existsb (Z.eqb x) seen then distinct_names t seen else distinct_names t (seen ++ [x])
   end.
 
-(* Sensors::load without a geometry: the leading comment lines are already removed (skip_comments assumed) *)
-Definition sensors_load (ls : list sline) : sres :=
-  let ne := filter (fun l => negb (s_empty l)) ls in
-  match ne with
-  | [] => SErr                                          (* 0 x (size_t)-1 matrix: submat asserts *)
-  | l0 :: _ =>
-      let ncol := s_ntok l0 in
-      if negb (forallb (fun l => Nat.eqb (s_ntok l) ncol) ne) then SErr
-      else if Nat.eqb ncol 0 then SUnmodelled           (* tokens[0] of an empty token list: undefined behaviour *)
-      else
-        let labeled := negb (existsb s_dot ne) in
-        let nc := if labeled then (ncol - 1)%nat else ncol in
-        if Nat.ltb nc 3 then SErr                       (* submat(0,nlin,0,3) asserts *)
-        else if Nat.eqb nc 4 then SErr                  (* radii need a geometry *)
-        else SOk (length ne) (if labeled then distinct (map s_name ne) [] else length ne) nc
-  end.
+(* Sensors::load reads its file twice: a counting pass (number of lines, of columns, labelled or not) and a reading
+   pass that takes as many lines as were counted.  Each pass has its own rule for the lines it ignores. *)
+Section TwoPass.
+  Variables cskip rskip : sline -> bool.
+  Definition counted (ls : list sline) : list sline := filter (fun l => negb (cskip l)) ls.
+  (* `do getline while (skipped)`, n times *)
+  Definition read_rows (n : nat) (ls : list sline) : list sline := firstn n (filter (fun l => negb (rskip l)) ls).
+
+  Definition sensors_load2 (ls : list sline) : sres :=
+    let ne := counted ls in
+    match ne with
+    | [] => SErr                                          (* 0 x (size_t)-1 matrix: submat asserts *)
+    | l0 :: _ =>
+        let ncol := s_ntok l0 in
+        if negb (forallb (fun l => Nat.eqb (s_ntok l) ncol) ne) then SErr
+        else if Nat.eqb ncol 0 then SUnmodelled           (* tokens[0] of an empty token list *)
+        else
+          let labeled := negb (existsb s_dot ne) in
+          let nc := if labeled then (ncol - 1)%nat else ncol in
+          if Nat.ltb nc 3 then SErr                       (* submat(0,nlin,0,3) asserts *)
+          else if Nat.eqb nc 4 then SErr                  (* radii need a geometry *)
+          else
+            let rows := read_rows (length ne) ls in
+            if negb (Nat.eqb (length rows) (length ne)) then SUnmodelled    (* the reading pass runs out of lines *)
+            else
+              let names := distinct_names (map s_name rows) [] in
+              SOk (length ne) (if labeled then length names else length ne) nc
+                  (map (fun kr => (s_idx (snd kr), if labeled then index_of (s_name (snd kr)) names 0 else fst kr))
+                       (combine (seq 0 (length rows)) rows))
+    end.
+End TwoPass.
+
+(* the code: both passes ignore the lines without any character, and only those *)
+Definition sensors_load (ls : list sline) : sres := sensors_load2 s_empty s_empty ls.
